@@ -240,10 +240,13 @@ def run_c14(ctx, replay_path=None):
 
 PROPS = {
     "C14": dict(
-        theorems=[],
+        theorems=["BluetoeModel.AdvData.adv_never_oob", "BluetoeModel.AdvData.adv_fits", "BluetoeModel.AdvData.autoAdv_segments",
+                  "BluetoeModel.AdvData.scan_rsp_never_oob", "BluetoeModel.AdvData.scan_rsp_fits", "BluetoeModel.AdvData.scan_rsp_auto",
+                  "BluetoeModel.AdvData.flags_present", "BluetoeModel.AdvData.name_complete_or_shortened",
+                  "BluetoeModel.AdvData.uuid16_complete_or_incomplete"],
         witnesses=[],
         run=run_c14,
-        level="proof",
+        level="partial",
         design_ref="§5 C14",
     ),
 }
